@@ -776,6 +776,7 @@ func (ex *Exec) fieldAddr(in *ssa.FieldAddr) Val {
 			ex.unsup("field of merged interior pointer")
 		}
 		ex.oblige("nil", ex.curPC, fmt.Sprintf("(not (= %s 0))", x.E), in.Pos(), "")
+		ex.monitorAccess(st, in.Field, x.E, in.Pos())
 		return Val{T: in.Type(), S: sInt, P: &Ptr{Root: rField, Ref: x.E, Struct: st, Field: in.Field, RootT: ft, Elem: ft}}
 	}
 	np := *x.P
